@@ -2,6 +2,9 @@ def module_for(pid):
     if pid in ('C01', 'C02', 'C03', 'C04', 'C05', 'C06', 'C07'):
         from . import decoder
         return decoder
+    if pid == 'C16':
+        from . import iojob
+        return iojob
     if pid == 'C11':
         from . import defrag
         return defrag
